@@ -266,6 +266,16 @@ func NAME(a int, b int) (res int) {
 	return res
 }
 `))
+	// constants beyond the int64 range (masks, limits of uint64 arithmetic)
+	n = next()
+	out = append(out, tmpl(n, SigBU, true, []string{"big-const"}, nil, `func NAME(x uint64, n int) (res int) {
+	m := x & `+c("0xFFFFFFFFFFFFFFF0", "0xFFFFFFFFFFFFFFFF", "18446744073709551600")+`
+	if x >= `+c("0xFFFFFFFFFFFFFFFC", "0x8000000000000001")+` {
+		res = 1
+	}
+	return res + int(m>>60) + n
+}
+`))
 	// two back edges that update the loop variable differently
 	n = next()
 	out = append(out, tmpl(n, SigXI, true, []string{"multi-latch", "loop-continue"}, nil, `func NAME(xs []int, n int) (res int) {
@@ -767,6 +777,28 @@ func NAME(a int, b int) (res int) {
 	}
 	out = append(out, mk("small-const/named-int-operand", SigII, []string{"named-type"}, nic("1", "3"), nic("2", "3")))
 	out = append(out, mk("small-const/named-int-compare", SigII, []string{"named-type"}, nic("1", "3"), nic("1", "4")))
+	// an edit inside a closure that only exchanges the roles of two captured variables
+	cp := func(e string) string {
+		return `func NAME(a int, b int) (res int) {
+	f := func() int { return ` + e + ` }
+	return f()*3 + trace(a)
+}
+`
+	}
+	out = append(out, mk("closure-capture-permutation/operand", SigII, []string{"closure-val"}, cp("a - b"), cp("b - a")))
+	cq := func(x, y string) string {
+		return `func NAME(a int, b int) (res int) {
+	from, to := a, b
+	move := func(amt int) {
+		` + x + ` -= amt
+		` + y + ` += amt
+	}
+	move(5)
+	return from*100 + to
+}
+`
+	}
+	out = append(out, mk("closure-capture-permutation/assignment", SigII, []string{"closure-val"}, cq("from", "to"), cq("to", "from")))
 	gc := func(e string) string {
 		return `func catNAME[T ~string | ~int](x T, y T) T {
 	return ` + e + `
